@@ -128,12 +128,13 @@ def build(rng, strings, k):
                           [0xA4], [0xFE, 0xFF]])
         at = rng.choice([0, len(comp), max(0, len(comp) - 1), 12 - len(seq), rng.randrange(0, 13 - len(seq))])
         compb[at:at + len(seq)] = seq
-    body = []
+    body, starts = [], []
     n = rng.choice([0, 1, 2, 3, 5, 9, 14])
     stop = rng.choice([None, None, 'size', 'oversized', 'cut'])
     stop_at = rng.randrange(n) if n and stop else None
     good = []
     for j in range(n):
+        starts.append(32 + len(body))
         if good and rng.random() < .4 and not (j == stop_at and stop != 'cut'):
             # an earlier entry once more: the same hash and data - as it was, or under the other tag
             # (a binary entry and a trace entry with equal content are shown differently)
@@ -149,7 +150,10 @@ def build(rng, strings, k):
     total = 32 + len(body)
     decl = rng.choice([total, total, total + 64, max(32, total - rng.randrange(1, 40)), 32, 0, 0xFFFFFFFF, 33])
     # (the fourth byte is the header's endian flag: 'B' on every dump seen so far; the arguments are big-endian whatever it says)
-    hdr = [rng.choice([2, 1, 255]), 0x20, 1, rng.choice([0x42, 0x42, 0x42, 0x4C, 0x6C, 0x00, 0xFF])] + compb + [0, 0, 0, 0] + u32(decl) + u32(rng.choice([0, 3, 254, 4294967295])) + u32(rng.randrange(1 << 32))
+    hdr = [rng.choice([2, 1, 255]), 0x20, 1, rng.choice([0x42, 0x42, 0x42, 0x4C, 0x6C, 0x00, 0xFF])] + compb + [0, 0, 0, 0] + u32(decl) + u32(rng.choice([0, 3, 254, 4294967295, 1, 1])) \
+        + u32(rng.choice([rng.randrange(1 << 32), total, 32] + (starts[1:] + starts[1:] if len(starts) > 1 else [decl & 0xFFFFFFFF])))
+    # (times wrapped and next free offset are shown as they are: the entries come in the order they are stored in,
+    # wherever the next free byte is - at the end, at an entry's start, inside one)
     data = hdr + body
     if stop == 'cut' and len(data) > 33:
         data = data[: rng.randrange(33, len(data))]
